@@ -435,3 +435,41 @@ func checkStreamPingAnswer(c *Ctx, prop string) {
 	}
 	c.Floor("stream ack sends", n, 1)
 }
+
+// checkStreamLabelConsistent: on an accepted stream the label that is
+// authenticated with the request (handed to the stream reader) is the label
+// every reply on that stream is sealed with - the push/pull reply, the ack of a
+// stream ping and the error reply. Under SkipInboundLabelCheck the wire label is
+// empty and the configured label takes its place for all of them.
+func checkStreamLabelConsistent(c *Ctx, prop string) {
+	rule := "every reply on an accepted stream is sealed with the same label the request was authenticated with"
+	c.Rule(rule)
+	fn := c.MustFunc("Memberlist.handleConn")
+	x := c.flow(fn, map[string]string{})
+	var reads []*gea.Effect
+	for _, e := range x.Effects {
+		if e.Class == "CALL:Memberlist.readStream" {
+			reads = append(reads, e)
+		}
+	}
+	c.Floor("stream reads in the inbound handler", len(reads), 1)
+	n := 0
+	for _, e := range x.Effects {
+		arg := ""
+		switch e.Class {
+		case "CALL:Memberlist.sendLocalState", "CALL:Memberlist.rawSendMsgStream":
+			arg = e.Detail["arg2"]
+		default:
+			continue
+		}
+		n++
+		ok, want := true, ""
+		for _, r := range reads {
+			if subCube(r.Cube, e.Cube) && untok(r.Detail["arg1"]) != untok(arg) {
+				ok, want = false, untok(r.Detail["arg1"])
+			}
+		}
+		c.Check(prop+"/stream/reply-label/"+strings.TrimPrefix(e.Class, "CALL:Memberlist."), rule, e.Pos, ok, "the reply is sealed with label "+untok(arg)+" but the request was authenticated with "+want+" {"+untok(gea.CubeString(e.Cube))+"}: the initiator cannot open it")
+	}
+	c.Floor("replies on the accepted stream", n, 3)
+}
